@@ -114,6 +114,7 @@ def parseOut (s : String) : Out :=
   if s = "ok" then .ok
   else if s = "panic" then .panic
   else if s = "never" then .never
+  else if s = "hog" then .never      -- never completes (and burns the cooperative budget: a runtime aspect)
   else if s.startsWith "err" then .err ((s.drop 3).toString.toNat?.getD 0)
   else .ok
 
